@@ -94,6 +94,16 @@ def fit_args(reg, X, Y):
 
 def gen_regressor(rng, X, Y, kinds=REGS):
     kind = gens.pick(rng, kinds)
+    if kind == "lr":
+        # scikit-learn's LinearRegression keeps rounding-noise singular directions of rank-deficient X
+        # (its predictions then leave the range of X); exact least squares is supplied as a
+        # precomputed pseudo-inverse solution there instead
+        sv = np.linalg.svd(X, compute_uv=False)
+        if len(sv) < X.shape[1] or sv[-1] <= 1e-8 * sv[0]:
+            Y2 = np.asarray(Y).reshape(X.shape[0], -1)
+            W = np.linalg.pinv(X, rcond=1e-10) @ Y2
+            Yh = X @ W
+            return {"kind": "precomputed", "Yhat": Yh[:, 0] if np.ndim(Y) == 1 else Yh, "W": W}
     if kind == "ridge":
         return {"kind": "ridge", "alpha": float(10.0 ** rng.uniform(-4, 0) * max(1e-12, (X**2).sum() / X.shape[1]))}
     if kind in ("precomputed", "precomputed_W"):
